@@ -332,7 +332,7 @@ fn check_gap(word: &String) -> CaseReport {
 }
 
 pub fn run_check(ctx: &Ctx) {
-    ctx.set_rule("all operator sequences over + - * / ^ up to the stated length x all binary tree shapes (Catalan), operands from fixed pools, each AST rendered in 32 ways (minimal / full / two redundant parenthesisations x 8 blank layouts incl. no blanks where allowed, double blanks, tabs, leading/trailing blanks; plus every other character the tool's lexer takes into a blank run (no-break space, thin space, ideographic space, line breaks, vertical tab …) in every position of a run; the random layouts spell the power operator `**` half of the time); plus `to`/round/floor/ceil variants (also with three-digit digits arguments), random deeper trees long flat expressions of 30-130 terms mixing calls and parenthesised groups, expressions nested 20-150 levels deep in parentheses and calls, expressions with one gap of 2^16 or more blanks, and for every accepted vocabulary word the gap between a number and its unit (none, one, several blanks, tabs); oracle = reference evaluation of the AST; non-trivial = operators of >=2 precedence levels, or a grouped right operand, or nested parentheses, or a non-canonical rendering; distinct by query text");
+    ctx.set_rule("all operator sequences over + - * / ^ up to the stated length x all binary tree shapes (Catalan), operands from fixed pools, each AST rendered in 32 ways (minimal / full / two redundant parenthesisations x 8 blank layouts incl. no blanks where allowed, double blanks, tabs, leading/trailing blanks; plus every other character the tool's lexer takes into a blank run (no-break space, thin space, ideographic space, line breaks, vertical tab …) in every position of a run; the random layouts spell the power operator `**` half of the time); plus chains of + and - with plain numbers between quantities (the grouping is observable through the unit a plain number adopts), parenthesised casts with one-word and several-word targets glued to the closing parenthesis or comma, `to`/round/floor/ceil variants (also with three-digit digits arguments), random deeper trees long flat expressions of 30-130 terms mixing calls and parenthesised groups, expressions nested 20-150 levels deep in parentheses and calls, expressions with one gap of 2^16 or more blanks, and for every accepted vocabulary word the gap between a number and its unit (none, one, several blanks, tabs); oracle = reference evaluation of the AST; non-trivial = operators of >=2 precedence levels, or a grouped right operand, or nested parentheses, or a non-canonical rendering; distinct by query text");
     ctx.assume("blank policy: + - and `to` always have a blank on both sides; no blank is omitted next to a unit or phrase (a blank next to * or / ends a unit expression in this grammar)");
     let corpus: Vec<(String, QCase)> = load_corpus("C06");
     let cases: Vec<QCase> = corpus.into_iter().map(|c| c.1).collect();
@@ -432,6 +432,46 @@ pub fn run_check(ctx: &Ctx) {
         }
         ctx.run_list("huge-blank-runs", &cases, |c| judge(shared_db(), c), |c| to_json(c));
     }
+    // chains of + and - in which plain numbers stand between quantities: a plain number adopts the unit of what it
+    // is combined with, so here — unlike in exact arithmetic on numbers alone — `a + b - c` grouped as `a + (b - c)`
+    // is another quantity, and the left-to-right rule becomes observable
+    ctx.run_gen(
+        "mixed-chains(grouping observable)",
+        || super::c02::chain().prop_filter("a plain number between quantities", |c| !c.plain_mid.is_empty() || (!c.plain.is_empty() && c.rest.len() >= 2)),
+        3_000,
+        |c| match super::c02::chain_case(c) {
+            Some(q) => judge(shared_db(), &q),
+            None => CaseReport::discard("", "reference-unspecified"),
+        },
+        |c| super::c02::chain_case(c).map(|q| to_json(&q)).unwrap_or(Value::Null),
+    );
+    // a parenthesised cast is a unit wherever it stands: with one-word and several-word targets, the closing
+    // parenthesis or the comma of a call directly behind the last unit word, nested, as either operand
+    {
+        let casts = [("1 J", "N m"), ("7200 J", "W h"), ("3 N s", "newton second"), ("1 J", "N*m"), ("5 km", "m"), ("2 hr", "min"), ("1 kWh", "W hr"), ("9 N m", "J"), ("1 Pa", "N m^-2"), ("4 J/s", "W")];
+        let mut cases: Vec<(String, String)> = Vec::new();
+        for (src, tgt) in casts {
+            let bare = format!("{} to {}", src, tgt);
+            let spaced = format!("( {} to {} )", src, tgt);
+            for q in [format!("({} to {})", src, tgt), format!("(({} to {}))", src, tgt), format!("( ({} to {}) )", src, tgt)] {
+                cases.push((bare.clone(), q));
+            }
+            for (a, b) in [
+                (format!("{} * 2", spaced), format!("({} to {}) * 2", src, tgt)),
+                (format!("{} * 2", spaced), format!("({} to {})*2", src, tgt)),
+                (format!("2 * {}", spaced), format!("2 * ({} to {})", src, tgt)),
+                (format!("2 * {}", spaced), format!("2*({} to {})", src, tgt)),
+                (format!("{} + {}", spaced, spaced), format!("({} to {}) + ({} to {})", src, tgt, src, tgt)),
+                (format!("round( {} to {} , 0 )", src, tgt), format!("round({} to {}, 0)", src, tgt)),
+                (format!("round( {} to {} , 1 )", src, tgt), format!("round({} to {},1)", src, tgt)),
+                (format!("floor( {} to {} )", src, tgt), format!("floor({} to {})", src, tgt)),
+                (format!("{} {}", spaced, spaced), format!("({} to {}) ({} to {})", src, tgt, src, tgt)),
+            ] {
+                cases.push((a, b));
+            }
+        }
+        ctx.run_list("parenthesised-casts", &cases, |(b, q)| check_same(b, q, "parenthesised-cast-not-a-unit", "parenthesised-cast"), |(b, q)| json!({"blank_kinds": {"base": b, "query": q}}));
+    }
     // kinds of blanks: every character the tool's own lexer takes into a blank run (one WHITESPACE token for
     // space-X-space) is a blank; a query with such blanks in any position of a run — first, last, alone, doubled —
     // must evaluate as it does with plain spaces
@@ -510,6 +550,11 @@ pub fn run_check(ctx: &Ctx) {
 }
 
 fn check_blank_kind(base: &str, q: &str) -> CaseReport {
+    check_same(base, q, "kind-of-blank-matters", "blank-kinds")
+}
+
+/// Two layouts of one expression evaluate alike.
+fn check_same(base: &str, q: &str, sig: &str, class: &'static str) -> CaseReport {
     let db = shared_db();
     let show = |r: &Result<Vec<crate::tool::R>, String>| match r {
         Ok(v) => v
@@ -524,9 +569,9 @@ fn check_blank_kind(base: &str, q: &str) -> CaseReport {
     };
     let (a, b) = (show(&crate::tool::run(db, base)), show(&crate::tool::run(db, q)));
     if a == b {
-        CaseReport::pass(q, true, vec!["blank-kinds"])
+        CaseReport::pass(q, true, vec![class])
     } else {
-        CaseReport::fail(q, "kind-of-blank-matters", json!({"with_spaces": base, "result": a, "query": q, "its_result": b}))
+        CaseReport::fail(q, sig, json!({"with_spaces": base, "result": a, "query": q, "its_result": b}))
     }
 }
 
